@@ -16,6 +16,43 @@ CHECKS = {
         "Trusted: NumPy take/where/arithmetics in the reference model; float64 data bounded by 1e6.",
         "DESIGN.md 4/C01",
     ),
+    "C02": (
+        "Hypothesis-generated constructor/call spellings x widths vs rule resolver + index-level padding model",
+        "Generated-input search over the product of constructor spellings, call spellings, asymmetric widths and layouts; "
+        "oracle is a resolver written from the statement and an index-level padding model; also the re-spelling relation "
+        "and a Grid.interp cross-check. Cannot prove absence.",
+        "Trusted: NumPy in the model. Corner cells under two different fill values are not compared (order-dependent by nature).",
+        "DESIGN.md 4/C02",
+    ),
+    "C09": (
+        "Hypothesis-generated layouts/shifts/rules vs geometric running-sum model + inverse/commutation/cumint relations",
+        "Generated-input search against a running-sum model stated on coordinates (sum of inputs before the target point) "
+        "and four metamorphic relations through the public API.",
+        "Trusted: NumPy cumsum in the model; relations that re-associate sums use rtol 1e-9 (exact for integer data).",
+        "DESIGN.md 4/C09",
+    ),
+    "C15": (
+        "bounded exhaustive enumeration + all single-character corruptions + Hypothesis, vs own grammar recogniser and canonical form",
+        "Exhaustive over the bounded grammar (>=1e5 strings quick, >1e6 thorough) and every single-character corruption of small "
+        "signatures, plus Hypothesis beyond the bound; the oracle is a hand-written three-valued recogniser that shares no code "
+        "with xgcm's regular expressions.",
+        "Trusted: the recogniser's reading of the statement; strings the statement is silent about are skipped and counted.",
+        "DESIGN.md 4/C15",
+    ),
+    "C17": (
+        "exhaustive enumeration (625 tables; all 1- and 2-edit neighbours of base tables) + Hypothesis random tables, vs reciprocity predicate",
+        "The 2-face/1-axis family is decided exhaustively; edit neighbourhoods of consistent tables exhaustively; larger tables by "
+        "generated search. Oracle: independent predicate from the statement.",
+        "Trusted: the predicate. Refusal = any exception.",
+        "DESIGN.md 4/C17",
+    ),
+    "C19": (
+        "Hypothesis-generated coordinate-laden datasets x ops vs coordinate model from the statement",
+        "Generated-input search over datasets with 0-D/1-D/N-D coordinates, missing dimension coordinates, (mis)labelled inputs, "
+        "all shifts incl. unpadded and cumsum paths, keep_coords; oracle lists which coordinates the result must and must not carry.",
+        "Trusted: xarray's own coordinate bookkeeping when building the inputs.",
+        "DESIGN.md 4/C19",
+    ),
 }
 
 ALL = [f"C{n:02d}" for n in range(1, 21)]
